@@ -1,9 +1,193 @@
+(* C16 — property theorems only.  Each is closed by [exact] of a lemma from
+   Proofs_*.v and followed by Print Assumptions. *)
 From Coq Require Import List ZArith Bool.
 From Verif Require Import lib.Wire gen.Consts_c16 c16.Model c16.Spec c16.Proofs.
 Import ListNotations.
 Local Open Scope Z_scope.
 
+(* ---- regenerated constants against the values the property names -------- *)
+(* the three comparisons in rateLimiter.cleanup use one minute; the dial-data
+   request asks for 30 000 .. 100 000 bytes *)
 Theorem c16_consts_spec :
-  rl_window_reqs = MINUTE /\ rl_window_peer = MINUTE /\ rl_window_dd = MINUTE.
-Proof. exact consts_spec_l. Qed.
+  (rl_window_reqs = MINUTE /\ rl_window_peer = MINUTE /\ rl_window_dd = MINUTE) /\
+  (minHandshakeSizeBytes = SPEC_MIN_DATA /\ maxHandshakeSizeBytes = SPEC_MAX_DATA).
+Proof. exact (conj consts_spec_l consts_data_l). Qed.
 Print Assumptions c16_consts_spec.
+
+(* ---- rate limiter ------------------------------------------------------- *)
+(* THE limiter property on traces: for every configuration and every history
+   of Accept / AcceptDialDataRequest / CompleteRequest / Close on a clock that
+   does not run backwards, the monitor that judges the implementation's traces
+   accepts the model's trace *)
+Theorem c16_limiter_trace_holds : forall c ops, mono 0 ops ->
+  holds_limiter c (rl_trace c rl_init ops) = [].
+Proof. exact holds_limiter_model. Qed.
+Print Assumptions c16_limiter_trace_holds.
+
+(* sliding window, every arrival pattern: in EVERY interval [s, s + 1 min)
+   the accepted requests number at most RPM, those of one peer at most
+   PerPeerRPM, the accepted dial-data requests at most DialDataRPM *)
+Theorem c16_window_bound : forall c ops, mono 0 ops ->
+  let tr := rl_trace c rl_init ops in
+  (forall s, count_if (in_win s) (accepted_of tr) <= Z.max 0 (RPM c)) /\
+  (forall s p, count_if (in_win_peer s p) (accepted_of tr) <= Z.max 0 (PerPeerRPM c)) /\
+  (forall s, count_if (in_win_t s) (accepted_dd_of tr) <= Z.max 0 (DialDataRPM c)).
+Proof. exact window_bound_l. Qed.
+Print Assumptions c16_window_bound.
+
+(* never more than MaxConcurrentRequestsPerPeer requests of one peer in
+   flight, on every history (no hypothesis on the clock) *)
+Theorem c16_concurrency_bound : forall c ops p,
+  0 <= rl_inprog (rl_run c rl_init ops) p <= Z.max 0 (MaxConc c).
+Proof. exact concurrency_bound_l. Qed.
+Print Assumptions c16_concurrency_bound.
+
+(* ---- readDialData ------------------------------------------------------- *)
+(* the monitor of kind-1 cases accepts every answer of the model *)
+Theorem c16_dialdata_trace_holds : forall n msgs, forallb msg_wf msgs = true ->
+  let '(res, cns) := read_dial_data n msgs 0 in holds_dialdata n msgs res cns = [].
+Proof. exact holds_dialdata_model. Qed.
+Print Assumptions c16_dialdata_trace_holds.
+
+(* nil is returned only after numBytes bytes of dial data, however the data
+   is split into messages *)
+Theorem c16_read_dial_data_bytes : forall n msgs cns, forallb msg_wf msgs = true ->
+  read_dial_data n msgs 0 = (0, cns) ->
+  n <= 0 \/ n <= sum_data (firstn (Z.to_nat cns) msgs).
+Proof. exact read_dial_data_bytes_l. Qed.
+Print Assumptions c16_read_dial_data_bytes.
+
+(* the length arithmetic is exact on a well-formed DialDataResponse that fits
+   the buffer, and never over-counts any message *)
+Theorem c16_length_accounting :
+  (forall D, 1 <= D -> wf_len D <= maxMsgSize -> bytes_len (wf_len D) = D) /\
+  (forall L, bytes_len L <= L - 4).
+Proof. exact (conj bytes_len_exact bytes_len_le). Qed.
+Print Assumptions c16_length_accounting.
+
+(* a message carrying fewer than the minimum while bytes remain is an error *)
+Theorem c16_small_message_refused : forall remain L, L <= maxMsgSize ->
+  bytes_len L < dialdata_min_msg -> 0 < remain - Z.max 0 (bytes_len L) ->
+  dd_step remain L = DDSmall.
+Proof. exact dd_step_small. Qed.
+Print Assumptions c16_small_message_refused.
+
+(* ---- serving a request -------------------------------------------------- *)
+(* THE session property on traces: for every configuration and every session
+   (requests of any shape from any peers, dial-data messages, closes, timeouts,
+   overlapping requests) whose clock does not run backwards, the session
+   monitor — every dial is covered by an open request of the dialled peer that
+   names the address and, when the IP differs, has been paid for in full; a
+   request naming no public dialable address is never answered OK; NumBytes is
+   30..100 kB; window and concurrency limits — accepts the model's trace *)
+Theorem c16_session_trace_holds : forall c ops, Forall op_wf ops -> smono 0 ops ->
+  holds_session c (s_trace c s_init ops) = [].
+Proof. exact holds_session_model. Qed.
+Print Assumptions c16_session_trace_holds.
+
+(* the dial clauses need no hypothesis on the clock *)
+Theorem c16_dials_trace_holds : forall c ops, Forall op_wf ops ->
+  holds_dials (s_trace c s_init ops) = [].
+Proof. exact holds_dials_model. Qed.
+Print Assumptions c16_dials_trace_holds.
+
+(* the address that is selected is the first public, dialable entry among the
+   first maxPeerAddresses of the request *)
+Theorem c16_dial_only_requested : forall l idx a, select_addr l = Some (idx, a) ->
+  In a l /\ usable a = true /\ 0 <= idx < maxPeerAddresses /\
+  nth_error l (Z.to_nat (idx - 0)) = Some a /\
+  forall j b, (j < Z.to_nat (idx - 0))%nat -> nth_error l j = Some b -> usable b = false.
+Proof. intros l idx a. exact (select_from_sound l 0 idx a). Qed.
+Print Assumptions c16_dial_only_requested.
+
+(* a dial made while the request is taken in goes to the requester, to the
+   selected address, and only if that address's IP is the observed one *)
+Theorem c16_dial_without_data_same_ip : forall c s sid p obs t good addrs n s' evs q aid,
+  0 < n ->
+  s_step c s (SReq sid p obs t good addrs n) = (s', evs) -> In (EDial q aid) evs ->
+  q = p /\ exists idx a, select_addr addrs = Some (idx, a) /\ a_id a = aid /\
+                         need_data obs a = false /\ ip_differs obs a = false.
+Proof. exact dial_on_request_l. Qed.
+Print Assumptions c16_dial_without_data_same_ip.
+
+(* a dial made on a dial-data message belongs to the stream the message came
+   on and happens only when readDialData's loop has run to completion *)
+Theorem c16_no_dial_before_data : forall c s sid L D s' evs q aid,
+  s_step c s (SData sid (MFull L D)) = (s', evs) -> In (EDial q aid) evs ->
+  exists w, find_w sid (s_wait s) = Some w /\ q = w_peer w /\ aid = a_id (w_addr w) /\
+            dd_step (w_remain w) L = DDDone.
+Proof. exact dial_on_data_l. Qed.
+Print Assumptions c16_no_dial_before_data.
+
+(* a request naming no public, dialable address: no dial, no data request *)
+Theorem c16_no_public_addr_no_dial : forall c s sid p obs t addrs n s' evs,
+  has_usable addrs = false ->
+  s_step c s (SReq sid p obs t true addrs n) = (s', evs) ->
+  evs = [] \/ evs = [ERespond sid ST_REJECTED 0] \/ evs = [ERespond sid ST_REFUSED 0].
+Proof. exact no_usable_no_dial_l. Qed.
+Print Assumptions c16_no_public_addr_no_dial.
+
+(* ---- non-vacuity --------------------------------------------------------- *)
+Definition cfg1 := mkCfg 2 1 1 1.
+
+(* a reachable limiter state that refuses: third request inside the window *)
+Example limiter_refuses_reachable :
+  map snd (rl_trace cfg1 rl_init [RAccept 1 0; RComplete 1; RAccept 2 5; RComplete 2; RAccept 3 59999999999; RAccept 3 60000000000]) =
+  [OAccept true 1 1 1; OComplete 0; OAccept true 2 1 1; OComplete 0; OAccept false 2 0 0; OAccept true 2 1 1].
+Proof. vm_compute. reflexivity. Qed.
+
+(* the monitor rejects a third acceptance within one minute under RPM = 2 *)
+Example monitor_rejects_window_overrun :
+  monitor_case [0; 2; 5; 5; 5;  1; 1; 0; 1; 1; 1; 1;  3; 1; 0;  1; 2; 5; 1; 2; 1; 1;  3; 2; 0;
+                1; 3; 59999999999; 1; 3; 1; 1] <> [].
+Proof. vm_compute. discriminate. Qed.
+
+(* ... and a second concurrent request of one peer under MaxConcurrentRequestsPerPeer = 1 *)
+Example monitor_rejects_concurrency_overrun :
+  monitor_case [0; 9; 9; 9; 1;  1; 7; 0; 1; 1; 1; 1;  1; 7; 10; 1; 2; 2; 2] <> [].
+Proof. vm_compute. discriminate. Qed.
+
+(* readDialData: a session in which the model dials after data; the monitor
+   rejects a nil result one byte short *)
+Example monitor_rejects_short_data :
+  monitor_case [1; 300; 2;  0; 206; 200;  0; 105; 99;  0; 2] <> [].
+Proof. vm_compute. discriminate. Qed.
+
+Definition a_foreign := mkAddr 1 true true true 2.
+Definition a_private := mkAddr 2 true false true 11.
+
+(* a session of the model in which a foreign-IP address is dialled after the
+   data has been received *)
+Example dial_after_data_reachable :
+  flat_map snd (s_trace cfg1 s_init
+     [SReq 1 0 1 0 true [a_private; a_foreign] 30000;
+      SData 1 (MFull 8192 8186); SData 1 (MFull 8192 8186); SData 1 (MFull 8192 8186);
+      SData 1 (MFull 5450 5444)]) =
+  [EAsk 1 1 30000; EDial 0 1; ERespond 1 ST_OK 1].
+Proof. vm_compute. reflexivity. Qed.
+
+(* the monitor rejects: a dial of a foreign-IP address before the data *)
+Example monitor_rejects_unpaid_dial :
+  monitor_case [2; 9; 9; 9; 9;  1; 1; 0; 1; 0; 1; 30000; 1; 1; 7; 2;  1; 11; 1; 0; 30000;
+                2; 1; 0; 8192; 8186;  2; 12; 0; 1; 10; 1; 200; 0] <> [].
+Proof. vm_compute. discriminate. Qed.
+
+(* ... a dial of an address the request does not name *)
+Example monitor_rejects_foreign_address :
+  monitor_case [2; 9; 9; 9; 9;  1; 1; 0; 1; 0; 1; 0; 1; 1; 7; 1;  2; 12; 0; 5; 10; 1; 200; 0] <> [].
+Proof. vm_compute. discriminate. Qed.
+
+(* ... a dial to another peer *)
+Example monitor_rejects_other_peer :
+  monitor_case [2; 9; 9; 9; 9;  1; 1; 0; 1; 0; 1; 0; 1; 1; 7; 1;  2; 12; 3; 1; 10; 1; 200; 0] <> [].
+Proof. vm_compute. discriminate. Qed.
+
+(* ... an OK answer to a request naming only a private address *)
+Example monitor_rejects_private_only_ok :
+  monitor_case [2; 9; 9; 9; 9;  1; 1; 0; 1; 0; 1; 0; 1; 1; 5; 1;  1; 10; 1; 200; 0] <> [].
+Proof. vm_compute. discriminate. Qed.
+
+(* and it accepts the honest version of the same exchange *)
+Example monitor_accepts_same_ip_dial :
+  monitor_case [2; 9; 9; 9; 9;  1; 1; 0; 1; 0; 1; 0; 1; 1; 7; 1;  2; 12; 0; 1; 10; 1; 200; 0] = [].
+Proof. vm_compute. reflexivity. Qed.
